@@ -9,8 +9,8 @@ fresh process has right after its imports (nothing the tool did for an earlier
 request can be seen), installs sys.argv = [tool] + argv, points the file
 descriptors 1 and 2 to two temporary files (sys.stdout / sys.stderr stay the
 interpreter's own objects, named '<stdout>' / '<stderr>') and calls the tool's main().  The
-reply is {"rc": exit status, "out": stdout bytes (latin-1), "err": last 2000
-bytes of stderr, "timeout": bool}.  Standard input of the tool is /dev/null.
+reply is {"rc": exit status, "out": stdout bytes (latin-1), "err": stderr (the middle
+is cut out when it is longer than 6000 bytes), "timeout": bool}.  Standard input of the tool is /dev/null.
 """
 import importlib
 import json
@@ -114,7 +114,7 @@ def serve(tool, modname, limit):
             eb = open(fe, 'rb').read()
         except OSError:
             eb = b''
-        out.write(json.dumps(dict(rc=rc, out=ob.decode('latin-1'), err=eb.decode('latin-1')[-2000:], timeout=timed_out)) + '\n')
+        out.write(json.dumps(dict(rc=rc, out=ob.decode('latin-1'), err=(eb.decode('latin-1') if len(eb) < 6000 else eb[:2000].decode('latin-1') + ' ... ' + eb[-3000:].decode('latin-1')), timeout=timed_out)) + '\n')
         out.flush()
     for f in (fo, fe):
         try:
